@@ -212,7 +212,68 @@ def check_generated(ctx, c):
         must_raise("convert-to-other-dimension(str '%s')" % s, q.convert, s)
 
 
+# ------------------------------------------------------------------------------------------------
+# unit systems reached through the public setters (attribute / item assignment, copy) after having been used
+
+def reassigned_strategy(ctx):
+    return st.fixed_dictionaries({
+        "first": sys_st, "final": sys_st, "other": sys_st, "dim": dim_st,
+        "values": st.lists(val_st, min_size=1, max_size=3),
+        "array": st.booleans(),
+        "role": st.sampled_from(["dst-system", "dst-units", "src"]),
+        "setter": st.sampled_from(["attr", "item"]),
+        "copy_first": st.booleans(),
+        "warm": st.booleans(),
+    })
+
+
+def check_reassigned(ctx, c):
+    dim = c["dim"]
+    changed = [k for k in si.KINDS if dim[k] != 0 and c["first"][k] != c["final"][k]]
+    ctx.note(c, bool(changed) and c["warm"], ["role:" + c["role"], "setter:" + c["setter"], "warm" if c["warm"] else "cold",
+                                            "copied" if c["copy_first"] else "same-object", "nchanged:%d" % len(changed)])
+    vals = c["values"] if c["array"] else c["values"][:1]
+    sys_obj = mk_sys(c["first"])
+    other = c["other"]
+
+    def use(so, sysd):
+        """one conversion in which the object `so` (describing sysd) takes the drawn role -> (result, exact factor)"""
+        if c["role"] == "src":
+            u = S.Units(so, mk_dim(dim))
+            q = S.UnitArray(list(vals), u) if c["array"] else S.UnitValue(vals[0], u)
+            return sut_call("convert", q.convert, mk_units(other, dim)), si.factor(sysd, other, dim), other
+        q = _mk(dict(c, values=vals), other)
+        tgt = so if c["role"] == "dst-system" else S.Units(so, mk_dim(dim))
+        return sut_call("convert", q.convert, tgt), si.factor(other, sysd, dim), sysd
+
+    if c["warm"]:
+        r, f, _ = use(sys_obj, c["first"])
+        for got, v in zip(_vals(r), vals):
+            if not close(got, F(v) * f):
+                raise Violation("conversion before any reassignment: %r, exact %r" % (got, float(F(v) * f)), key="reassigned:first")
+    if c["copy_first"]:
+        sys_obj = sut_call("UnitsSystem.copy", sys_obj.copy)
+    for k in si.KINDS:
+        if c["setter"] == "attr":
+            sut_call("UnitsSystem.%s = ..." % k, setattr, sys_obj, k, c["final"][k])
+        else:
+            sut_call("UnitsSystem[...] = ...", sys_obj.__setitem__, k, c["final"][k])
+    for k in si.KINDS:
+        if sys_obj[k] != c["final"][k]:
+            raise Violation("after assigning %s = %r the system reads %r" % (k, c["final"][k], sys_obj[k]), key="reassigned:getter")
+    r, f, res_sys = use(sys_obj, c["final"])
+    for k in si.KINDS:
+        if dim[k] != 0 and r.units.sys[k] != res_sys[k]:
+            raise Violation("result expressed in %s, asked %s (system reassigned from %s)" % (r.units.sys[k], res_sys[k], c["first"][k]),
+                            key="reassigned:sys")
+    for got, v in zip(_vals(r), vals):
+        if not close(got, F(v) * f):
+            raise Violation("a units system first %s then reassigned (%s) to %s, role %s: convert gave %r, exact %r" % (
+                c["first"], c["setter"], c["final"], c["role"], got, float(F(v) * f)), key="reassigned:factor")
+
+
 FACETS = [
     Facet("table", check_table, enumerate=enum_table, shards=(8, 16)),
     Facet("generated", check_generated, strategy=gen_strategy, examples=(4000, 200000), shards=(8, 16)),
+    Facet("reassigned", check_reassigned, strategy=reassigned_strategy, examples=(2000, 60000), shards=(4, 16)),
 ]
